@@ -425,6 +425,17 @@ pub fn ledger_stream(ctx: &mut Ctx) {
 	grid!(ctx, "Result<Tracked, Tracked> (Err)", None, 1, &[1], |bs: &[u8]| <Result<Tracked, Tracked>>::decode(&mut &bs[..]));
 	grid!(ctx, "(Tracked, Tracked, Tracked)", Some("vec"), 3, &[], |bs: &[u8]| <(Tracked, Tracked, Tracked)>::decode(&mut &bs[..]));
 	grid!(ctx, "Box<(Tracked, Tracked)>", Some("vec"), 2, &[], |bs: &[u8]| <Box<(Tracked, Tracked)>>::decode(&mut &bs[..]));
+	// GenericArray collects into a temporary Vec: elements decoded before a failure (or a panic of
+	// a later element's decoder) are owned, and dropped, by that Vec
+	#[cfg(feature = "garray-f")]
+	{
+		use generic_array::{typenum, GenericArray};
+		grid!(ctx, "GenericArray<Tracked, U1>", Some("vec"), 1, &[], |bs: &[u8]| <GenericArray<Tracked, typenum::U1>>::decode(&mut &bs[..]));
+		grid!(ctx, "GenericArray<Tracked, U3>", Some("vec"), 3, &[], |bs: &[u8]| <GenericArray<Tracked, typenum::U3>>::decode(&mut &bs[..]));
+		grid!(ctx, "GenericArray<Tracked, U8>", Some("vec"), 8, &[], |bs: &[u8]| <GenericArray<Tracked, typenum::U8>>::decode(&mut &bs[..]));
+		grid!(ctx, "Box<GenericArray<Tracked, U5>>", Some("vec"), 5, &[], |bs: &[u8]| <Box<GenericArray<Tracked, typenum::U5>>>::decode(&mut &bs[..]));
+		grid!(ctx, "Vec<GenericArray<Tracked, U2>> (2)", None, 4, &[8], |bs: &[u8]| <Vec<GenericArray<Tracked, typenum::U2>>>::decode(&mut &bs[..]));
+	}
 	grid!(ctx, "CompositeEnum::A", None, 2, &[0], |bs: &[u8]| CompositeEnum::decode(&mut &bs[..]));
 	grid!(ctx, "CompositeEnum::B", None, 3, &[1], |bs: &[u8]| {
 		// x: [Tracked; 2], y: Some(Tracked)
